@@ -14,7 +14,13 @@ Inductive case :=
 | Session (k : kind) (o : outcome) (sh : share) (impl : list ev) (real : nat)
 (* several sessions one after the other on the same store, each finding the share file in the
    state given; real as above (the whole sequence replayed on the real stores) *)
-| Sequence (ss : list (share * (kind * outcome))) (impl : list ev) (real : nat).
+| Sequence (ss : list (share * (kind * outcome))) (impl : list ev) (real : nat)
+(* sessions that OVERLAP on one store whose Lock really blocks: thread 0 holds the lock while the
+   others ask for it (and are cancelled / time out / are refused while they wait, or wait in their
+   constructor); impl = the merged ledger, read when every goroutine had come to rest, each event
+   with the session it belongs to; free: 1 = a Lock after everything had ended succeeded within its
+   deadline, 3 = it did not (the mutex was leaked) *)
+| Contention (ss : list (kind * outcome)) (impl : list (nat * ev)) (free : nat).
 
 Definition ev_eqb (a b : ev) : bool :=
   match a, b with
@@ -29,16 +35,27 @@ Fixpoint evs_eqb (a b : list ev) : bool :=
   | _, _ => false
   end.
 
+Fixpoint threads_agree (i : nat) (ss : list (kind * outcome)) (tr : list (nat * ev)) : bool :=
+  match ss with
+  | [] => true
+  | s :: r => evs_eqb (session_events New (fst s) (snd s)) (proj i tr) && threads_agree (S i) r tr
+  end.
+
 Definition agree (c : case) : bool :=
   match c with
   | Session k o sh impl _ => feasible_in sh k o && evs_eqb (session_events New k o) impl
   | Sequence ss impl _ => all_feasible_in ss && evs_eqb (sessions_events New (map snd ss)) impl
+  | Contention ss impl _ =>
+      (* whatever the interleaving was: every session's own part of the ledger is the model's *)
+      all_feasible ss && threads_agree 0 ss impl
+      && forallb (fun x => Nat.ltb (fst x) (length ss)) impl
   end.
 
 Definition judge (c : case) : bool :=
   match c with
   | Session k o sh impl real => session_ok k impl && Nat.leb real 1
   | Sequence ss impl real => sequence_ok impl && Nat.leb real 1
+  | Contention ss impl free => contention_ok ss impl && Nat.leb free 1
   end.
 
 Definition kind_ix (k : kind) : N :=
@@ -47,14 +64,15 @@ Definition kind_ix (k : kind) : N :=
 Definition outcome_ix (o : outcome) : N :=
   match o with NeverSilent => 0 | NeverTimeout => 1 | NeverCancelled => 2 | StartMalformed => 3
              | ParamsRejected => 4 | RanFailed => 5 | RanSucceeded => 6 | Refused => 7
-             | ConstructorFails => 8 end.
+             | ConstructorFails => 8 | Rerun => 9 end.
 Definition share_ix (sh : share) : N :=
   match sh with Readable => 0 | Missing => 1 | Corrupt => 2 | Unreadable => 3 end.
 
 Definition tag (c : case) : N :=
   match c with
-  | Session k o sh _ _ => (kind_ix k * 9 + outcome_ix o + 100 * share_ix sh)%N
+  | Session k o sh _ _ => (kind_ix k * 10 + outcome_ix o + 100 * share_ix sh)%N
   | Sequence _ _ _ => 1000%N
+  | Contention _ _ _ => 2000%N
   end.
 
 Definition check_all := check_cases agree judge tag.
